@@ -406,7 +406,13 @@ fn part_b(sh: &mut Shard, rng: &mut Rng, work: &Path, runs: usize) {
                 let tok = st.create_session(IdeRole::Editor).expect("session").token;
                 while !by_stop.load(Ordering::SeqCst) {
                     let d = r.pick(&dirs).clone();
-                    match r.below(7) {
+                    match r.below(9) {
+                        6 | 7 => {
+                            // rename one of those directories away and back: only entries inside it may follow
+                            let _ = st.create_entry(&tok, &d, true, None, true);
+                            let _ = st.rename_entry(&tok, &d, &format!("{d}_moved"), true);
+                            let _ = st.rename_entry(&tok, &format!("{d}_moved"), &d, true);
+                        }
                         0 | 1 => {
                             let _ = st.create_entry(&tok, &d, true, None, true);
                             let _ = st.create_entry(&tok, &format!("{d}/z.st"), false, Some("(* z *)\n".into()), true);
